@@ -118,6 +118,11 @@ class ExprMixin:
             ctx.axioms.append(z3.ForAll([a_, b_, k_], z3.Implies(z3.And(0 <= k_, k_ < z3.Length(b_)),
                                                                 f(z3.Concat(a_, b_), k_ + z3.Length(a_)) == f(b_, k_)),
                                         patterns=[z3.MultiPattern(f(b_, k_), z3.Concat(a_, b_))]))
+            # a prefix (list.pop() leaves seq.extract(s, 0, len - 1)): same elements
+            m_ = z3.Int('m!n')
+            ctx.axioms.append(z3.ForAll([s_, m_, k_], z3.Implies(z3.And(0 <= k_, k_ < m_, m_ <= z3.Length(s_)),
+                                                                f(z3.SubSeq(s_, 0, m_), k_) == f(s_, k_)),
+                                        patterns=[f(z3.SubSeq(s_, 0, m_), k_)]))
             ctx.str_fns[key] = f
         return ctx.str_fns[key](t, i)
 
@@ -138,6 +143,35 @@ class ExprMixin:
             return self.heaplist_seq(v, path), v.elem_kind
         raise OutOfReach(f'to_seq of {v}')
 
+    def fold_provenance(self, decl):
+        """engine schema for sequences built by concatenation in a loop / comprehension: every element of F(p, n) is an element
+        of one of the n pieces (Skolem functions name the piece and the offset).  For pieces of one element the piece is the
+        index itself (stated exactly by the caller).  Valid by the definition of F as the concatenation of its pieces."""
+        ctx = self.ctx
+        key = ('provenance', decl.get_id())
+        if key in ctx.str_fns:
+            return
+        ctx.str_fns[key] = True
+        info = ctx.folds.info(decl)
+        if info is None or info[2] != 'concat' or not z3.is_seq(z3.Const('x', decl.range())) or decl.range() == z3.StringSort():
+            return
+        _, _, _, params, norm, _, _ = info
+        n, k = z3.Int('n!p'), z3.Int('k!p')
+        I = z3.Int('I!')
+        app = decl(*(params + [n]))
+        doms = [p.sort() for p in params] + [z3.IntSort(), z3.IntSort()]
+        sk = z3.Function(f'piece_{decl.name()}', *(doms + [z3.IntSort()]))
+        off = z3.Function(f'offset_{decl.name()}', *(doms + [z3.IntSort()]))
+        i_, j_ = sk(*(params + [n, k])), off(*(params + [n, k]))
+        piece = z3.substitute(norm, (I, i_))
+        lhs = self.seq_nth(app, k)
+        body = z3.Implies(z3.And(0 <= k, k < z3.Length(app)),
+                          z3.And(0 <= i_, i_ < n, 0 <= j_, j_ < z3.Length(piece), lhs == self.seq_nth(piece, j_)))
+        ctx.axioms.append(z3.ForAll(params + [n, k], body, patterns=[lhs]))
+        ctx.definitional.add(id(ctx.axioms[-1]))
+        ctx.assumptions.add('engine schema: every element of a sequence built by appending pieces in a loop or comprehension is an element of '
+                            'one of the pieces')
+
     def heaplist_seq(self, v, path):
         """the Seq of a heap list: fold over its index (shared symbol per field version)"""
         i = self.ctx.fresh('i', z3.IntSort())
@@ -154,6 +188,12 @@ class ExprMixin:
             app = decl(o, n)
             self.ctx.axioms.append(z3.ForAll([o, n], z3.Implies(n >= 0, z3.Length(app) == n), patterns=[app]))
             self.ctx.definitional.add(id(self.ctx.axioms[-1]))
+            info = self.ctx.folds.info(decl)
+            if info is not None and z3.is_app(info[4]) and info[4].decl().name() == 'seq.unit':
+                elem = z3.substitute(info[4].arg(0), (info[3][0], o), (z3.Int('I!'), k))
+                nth_ = self.seq_nth(app, k)
+                self.ctx.axioms.append(z3.ForAll([o, n, k], z3.Implies(z3.And(0 <= k, k < n), nth_ == elem), patterns=[nth_]))
+                self.ctx.definitional.add(id(self.ctx.axioms[-1]))
             self.ctx.assumptions.add('engine schema: the sequence built from the first n elements of a list field has length n')
         return decl(*(args + [self.length(v, path)]))
 
